@@ -23,6 +23,7 @@ func init() {
 		Rules: []RuleDef{
 			{"C18/fatal-guards", "six unsafe combinations: no path reaches the normal return while the combination holds", c18FatalGuards},
 			{"C18/key-substitution", "five keys: at return, len >= 32 was established or a fresh GenerateRandomString(n>=32) was stored", c18KeySubstitution},
+			{"C18/checked-settings", "the settings the refusals test are returned as they were tested: Load does not rewrite them", c18CheckedSettings},
 			{"C18/csprng", "GenerateRandomString / GenerateRandomBytes draw only from crypto/rand and return n symbols", c18CSPRNG},
 			{"C18/mechanism-words", "OpenIDEnabled / KerberosEnabled / BasicAuthEnabled / NtlmEnabled test membership of the documented words", c18Words},
 			{"C18/wiring", "main: Load and NewHandler precede serving; every key is copied to the variable its consumer reads", c18Wiring},
@@ -485,4 +486,33 @@ func c18Downstream(c *Ctx) {
 	}
 	_ = token.NoPos
 	c.Floor(rule, 5, "3 token generators + 2 session keys")
+}
+
+// c18CheckedSettings: the refusals in Load compare raw setting strings; the rest of the program
+// compares the same settings again (main: Tls == "disable", web: hostSelection == "signed"). If Load
+// rewrites such a setting (normalising case or blanks) after — or at all, since the refusals see the
+// raw text — a spelling that slipped past the refusal becomes the unsafe canonical value afterwards.
+func c18CheckedSettings(c *Ctx) {
+	rule := "C18/checked-settings"
+	load := c.Fn("cmd/rdpgw/config", "Load")
+	checked := map[string]bool{"Server.HostSelection": true, "Server.Tls": true, "Server.Authentication": true, "Server.BasicAuthTimeout": false,
+		"Caps.TokenAuth": true, "Kerberos.Keytab": true, "Security.QueryTokenSigningKey": true, "Server.SessionStore": true}
+	n := 0
+	for _, f := range scopeFuncs(load, 2) {
+		eachInstr(f, func(in ssa.Instruction) {
+			s, ok := in.(*ssa.Store)
+			if !ok {
+				return
+			}
+			p, ok := confAddrPath(s.Addr, "Conf")
+			if !ok || !checked[p] {
+				return
+			}
+			n++
+			c.Bad(rule, "store "+p+" in "+shortFn(f), s.Pos(), "Load rewrites %s, which the start-up refusals (and later main/web) compare as raw text: a spelling that is not refused can become the refused value after the check", p)
+		})
+	}
+	if n == 0 {
+		c.OK(rule, "config.Load checked settings", load.Pos(), "no store to HostSelection, Tls, Authentication, TokenAuth, Keytab, QueryTokenSigningKey, SessionStore in Load or its helpers (they are filled by the unmarshalling library only)")
+	}
 }
